@@ -4,8 +4,14 @@ package main
 // Model: coq/Render/Sample.v (lattice arithmetic of the uniform renderer, two-layer cache),
 // coq/Render/InterpR.v (error bounds); cases evaluated by coq/Render/C06Corr.v.
 // Direct oracles on real renders of shapes with known surface: |f(v)| bounds (plane, sphere,
-// 1-Lipschitz), vertices in the padded sample box, padding, completeness (surface points near the
-// mesh), normals versus gradient, volume convergence.
+// 1-Lipschitz), vertices in the padded sample box, every triangle inside one cell of the lattice of
+// (box, cells), padding, completeness (surface points near the mesh), normals versus gradient, volume
+// convergence.  Dimensions of the inputs besides shape / box / resolution / absolute scale:
+//   histories   the renderer object has handled other models (other sizes, Info only, another object
+//               with another cell count in between) before the checked render; also compared with a
+//               fresh object
+//   gain        the uniform renderers get gain * shape (gain 2..1000, constant or directional): a
+//               field that over-estimates the distance; also compared cell for cell with the shape
 
 import (
 	"encoding/json"
@@ -218,11 +224,9 @@ func (st *state) render(sp *Spec, F sk.F3, fail func(string)) *rendered {
 	if obj != nil {
 		// the reference of a history: the same model through a renderer object that has seen nothing else
 		var fresh *sk.TriCollector
-		var freshInfo string
 		if len(sp.Prev) > 0 {
 			fresh = &sk.TriCollector{}
 			fo := newObj(sp.Cells)
-			freshInfo = fo.Info(field)
 			fo.Render(&mk.Counted3{S: field, Max: evalCap, OnExceed: runaway("a fresh renderer object")}, fresh)
 		}
 		for i := range sp.Prev {
@@ -269,14 +273,14 @@ func (st *state) render(sp *Spec, F sk.F3, fail func(string)) *rendered {
 			}
 		}
 		obj = objs[sp.Cells]
+		if len(sp.Prev) > 0 {
+			obj.Info(field) // as the output routines do, right before Render
+		}
 		if msg := renderObj(capped, col); msg != "" {
 			fail("renderer panicked: " + msg)
 			return nil
 		}
 		if fresh != nil && !capped.Exceeded() {
-			if info := obj.Info(field); info != freshInfo {
-				fail(fmt.Sprintf("after %d earlier calls on the same renderer object Info returns %q, a fresh renderer object returns %q", len(sp.Prev), info, freshInfo))
-			}
 			same := len(fresh.T) == len(col.T)
 			for k := 0; same && k < len(col.T); k++ {
 				same = fresh.T[k] == col.T[k]
